@@ -209,9 +209,20 @@ def run_config(rng, ctx, scn, CV, watch, index, tracer):
     # it sorts before or after 'pixel'
     outer = ['arun', 'run'][index % 2] if index % 9 == 4 and not binned else None
     data = build(rng, origin, present, values, container, binned, outer=outer)
+    # a supplied coordinate counts whatever its alignment flag says (integer slicing and earlier conversions
+    # leave coordinates unaligned); one configuration in eleven supplies all of them unaligned
+    unaligned = index % 11 == 7
+    if unaligned:
+        for nm in present:
+            try:
+                data.coords.set_aligned(nm, False)
+            except Exception:  # noqa: BLE001  (event coordinate: lives in the bins)
+                pass
+        ctx.hit('supplied coordinates unaligned')
     verdict, nodes, mode = G.decide(origin, target, scatter, [*present, *AUX, origin])
     case = {'origin': origin, 'target': target, 'scatter': scatter, 'present': present, 'container': container,
-            'binned': binned, 'model': verdict, 'model_detail': nodes, 'index': index, 'outer_dim': outer}
+            'binned': binned, 'model': verdict, 'model_detail': nodes, 'index': index, 'outer_dim': outer,
+            'unaligned': unaligned}
     watch.kernels, watch.graph, watch.k_depth = [], None, 0
     # the flag is a truth value: callers also pass numpy booleans (np.any(...)) or 0/1
     flag_form = index % 7
@@ -271,8 +282,8 @@ def run_config(rng, ctx, scn, CV, watch, index, tracer):
                                                                   reported=sorted(map(repr, reported))))
     # the explicit-mode factory must agree with the deduced one
     try:
-        explicit = (CV.conversion_graph(origin, target, scatter, mode) if index % 2 else
-                    CV.conversion_graph(origin=origin, target=target, scatter=scatter, energy_mode=mode))
+        explicit = (CV.conversion_graph(origin, target, scatter_arg, mode) if index % 2 else
+                    CV.conversion_graph(origin=origin, target=target, scatter=scatter_arg, energy_mode=mode))
         if set(map(repr, explicit)) != set(map(repr, reported)) or any(explicit[k] is not reported[k] for k in reported):
             ctx.violation('graph_report', f'conversion_graph({origin}, {target}, {scatter}, {mode}) differs from the '
                           'graph deduce_conversion_graph reports for data in that mode', case)
@@ -387,7 +398,8 @@ def plan(tier, seed):
 
 def requirements(tier):
     return {'events': {'convert': 5000, 'value': 1000, 'graph_identity': 1000, 'outer_layout': 100, 'chained': 200},
-            'counters': {'model:ok': 1000, 'model:refuse': 1000}}
+            'counters': {'model:ok': 1000, 'model:refuse': 1000},
+            'forced': ['supplied coordinates unaligned']}
 
 
 def run(shard, ctx):
